@@ -10,7 +10,8 @@ model (lean/GlotaranModel/C14.lean on top of C02/C03):
   * noise stream — `data + std * z` with numpy's own draws as the tape.
 Oracle (independent of the model, on the real code): the clauses of the statement — by-label reference simulation,
 |objective(x_true)| <= 1e-9 |data|, estimated clps = generating clps / dataset scale, optimize() from the truth does not
-move, seeded noise is reproducible (bit-equal) and depends on the seed, recovery from <= 20 % perturbed starts (empirical).
+move, seeded noise is reproducible (bit-equal) and depends on the seed, recovery from <= 20 % perturbed starts (empirical;
+which configurations are tested is decided per configuration by RECOVERY_RULE, evaluated on the real code, and reported).
 """
 from __future__ import annotations
 
@@ -46,8 +47,16 @@ REQUIRED_THEOREMS = [
     "prepared_rank_unweighted",
     "full_model_dataset_zero_at_truth",
     "full_model_data_in_range",
+    "full_model_clps_at_truth",
+    "full_col_rank_certificate",
+    "aligned_axes_shape",
     "stacked_matrix_by_label",
+    "linked_problem_in_range",
     "linked_group_zero_at_truth",
+    "linked_clps_at_truth",
+    "linked_clps_own_order_partial",
+    "linked_clps_own_order_counterexample",
+    "full_model_clps_from_factor_ranks",
     "objective_zero_at_truth",
     "truth_is_global_min",
     "gradient_zero_at_truth",
@@ -70,7 +79,9 @@ TRUSTED = [
 ASSUMPTIONS = [
     "no clp constraints / relations / penalties in the fitted model (with them the generating clps would have to satisfy them; "
     "C02/C03 cover the reduced problem)",
-    "linked groups: the generating clps of the member datasets are scale_j * (one common value per label and aligned point)",
+    "linked groups: the generating clps of the member datasets are scale_j * (one common value per label and aligned point); the "
+    "own-index form of the clp clause is claimed for members whose global axis is in the order of the aligned axis (otherwise: "
+    "recorded finding clp-not-generating-over-scale:linked:non-ascending-global-axis, replayed from the corpus)",
     "full models: the global megacomplexes' clp labels contain the model megacomplexes' clp labels (otherwise simulate raises "
     "KeyError, which is compared as an error kind); the dataset scale is used neither by simulate nor by the full-model fit",
     "clp equality is claimed for full-column-rank matrices only (rank-deficient / ill-conditioned cases are counted, the "
@@ -83,14 +94,17 @@ RULE = (
     "VP or NNLS, full models whose global labels are a shuffled superset of the model labels, sometimes split over two global "
     "megacomplexes); per dataset a clp table with shuffled label order, unused extra labels, (global, clp_label) or "
     "(clp_label, global) layout, foreign global coordinates, extra trailing rows; generating clps dyadic, non-negative for NNLS, "
-    "zeros included, common per label and aligned point in linked groups. builtin stream: random compositions of "
+    "zeros included, common per label and aligned point in linked groups; 15 % of the cases without model weights store one dataset "
+    "of an unlinked group on a descending global axis. builtin stream: random compositions of "
     "decay-sequential / decay-parallel / decay (chain, branch, back-reaction, weighted parallel) with no / gaussian / "
-    "multi-gaussian / spectral-(dispersed) / shifted IRF, coherent artifact, damped oscillation (with and without IRF), baseline, "
+    "multi-gaussian / spectral-(dispersed) / shifted IRF, coherent artifact, damped oscillation (with and without IRF), PFID "
+    "(1-2 resonances inside the spectral window, negative dephasing rates, extra time points before the IRF; not in full models), baseline, "
     "clp-guide datasets, megacomplex scales, dataset scales, 1-3 datasets linked or not, irregular time and spectral axes, "
     "clp-driven or full-model (spectral megacomplex with gaussian / skewed-gaussian / one shapes). malformed stream: missing / "
     "duplicate / absent clp labels, too few clp rows, no clp, index-dependent global matrix, empty global axis. noise stream: "
-    "seeds incl. 0, no seed (current generator state), std incl. 0. non-trivial = simulated data not identically zero; "
-    "distinct = distinct case description"
+    "seeds incl. 0, no seed (current generator state), std incl. 0. recovery stream: 3 of 4 cases from the core family (incl. "
+    "deliberately non-identifiable members), 1 of 4 from the whole zoo, starts 3-20 % off; tested / skipped / observed per the rule "
+    "in coverage.recovery.rule. non-trivial = simulated data not identically zero; distinct = distinct case description"
 )
 RTOL = 1e-9
 EPS = 2.0 ** -52
@@ -293,6 +307,7 @@ def exact_case(rng):
         spec["weights"].append({"datasets": who, "value": rng.choice([2.0, 0.5, 4.0]),
                                 "global_interval": gen_scheme.jsonable_interval([rng.choice([1.0, 2.0, -gen_scheme.INF]), rng.choice([3.0, 12.0, gen_scheme.INF])]),
                                 "model_interval": None})
+    descending = not spec["weights"] and rng.random() < 0.15
     group_order = []
     for ds in spec["datasets"]:
         if ds["group"] not in group_order:
@@ -300,6 +315,16 @@ def exact_case(rng):
         nlab = len({l for mc in ds["mcs"] for l in mc["labels"]})
         if ds.get("gmcs") and len(ds["global_axis"]) < nlab:
             ds["gmcs"] = []          # the global matrix could not have full column rank: not a full model in this stream
+    if descending:
+        # "arbitrary coordinates": one dataset of an unlinked group is stored with a descending global axis (only the coordinate
+        # values change: matrices, weights and clp rows stay attached to their positions). Linked groups are left alone: there a
+        # member whose own axis order differs from the aligned axis is the recorded finding
+        # clp-not-generating-over-scale:linked:non-ascending-global-axis (corpus witness linked-descending-global-axis.json),
+        # and for non-ascending axes the order of the aligned axis is xarray's (C09 trusts "sorted union" for ascending input).
+        free = [d for d in spec["datasets"] if not gen_scheme.resolve_linked(spec, d["group"])]
+        if free:
+            ds = rng.choice(free)
+            ds["global_axis"] = list(reversed(ds["global_axis"]))
     for g in group_order:
         members = [d for d in spec["datasets"] if d["group"] == g]
         nnls = spec["groups"][g]["residual_function"] == "non_negative_least_squares"
@@ -522,6 +547,8 @@ def run_exact(ck, case, batch, lean=True, fit=True):
         outcomes[ds["label"]] = out
         ck.count("simulate:" + ("ok" if out[0] == "ok" else "err:" + out[1].split(":")[0]))
         ck.count("clp-layout:" + e["variant"])
+        if len(ds["global_axis"]) > 1 and ds["global_axis"][0] > ds["global_axis"][-1]:
+            ck.count("global-axis:descending")
         if e.get("malformed"):
             ck.count("malformed:" + e["malformed"])
         n_model, n_global = len(ds["model_axis"]), len(ds["global_axis"])
@@ -598,7 +625,8 @@ def run_exact(ck, case, batch, lean=True, fit=True):
                         fit_oracle_clp(ck, light, d["label"], r, e["truth"], cap, "global", "model", weights[d["label"]],
                                        linked=gen_scheme.resolve_linked(spec, d["group"]),
                                        nnls=spec["groups"][d["group"]]["residual_function"] == "non_negative_least_squares",
-                                       group_cond=max(own_cond(spec_capture(spec, x), len(x["global_axis"]), weights[x["label"]]) for x in members))
+                                       group_cond=max(own_cond(spec_capture(spec, x), len(x["global_axis"]), weights[x["label"]]) for x in members),
+                                       global_axis=d["global_axis"])
     if lean:
         batch.append({"case": case, "spec": spec, "outcomes": outcomes, "lines": exact_lines(spec, sim, weights, fit=real_obj is not None and not real_obj["error"]),
                       "real_obj": real_obj, "real_res": real_res, "light": light})
@@ -750,7 +778,7 @@ def own_cond(cap, n_global, weight):
     return worst
 
 
-def fit_oracle_clp(ck, light, label, r, truth, cap, gdim, mdim, weight, linked, nnls=False, group_cond=None):
+def fit_oracle_clp(ck, light, label, r, truth, cap, gdim, mdim, weight, linked, nnls=False, group_cond=None, global_axis=None):
     """estimated clps = generating clps / dataset scale, by label (truth rows are generating / scale).
     Tolerance: 1e-10 * cond (QR) resp. additionally 1e-13 * cond^2 (scipy's nnls solves normal equations); in a linked
     group the stacked problem is as ill-conditioned as its worst member (`group_cond`)."""
@@ -779,7 +807,15 @@ def fit_oracle_clp(ck, light, label, r, truth, cap, gdim, mdim, weight, linked, 
         tol = (1e-10 * cond + (1e-13 * cond * cond if nnls else 0.0) + 1e-12) * scale
         for j, l in enumerate(labels):
             if not abs(got[i, j] - trow[l]) <= tol:
-                ck.violation("clp-not-generating-over-scale" + (":linked" if linked else ""),
+                key = "clp-not-generating-over-scale" + (":linked" if linked else "")
+                ax = None if global_axis is None else np.asarray(global_axis, dtype=float)
+                if linked and ax is not None and ax.size == n_global and np.any(np.diff(ax) <= 0):
+                    # the specific recorded defect: the rows are the generating rows in the order of the aligned (ascending)
+                    # axis, attached to the dataset's own, non-ascending axis
+                    by_value = np.array([[truth["rows"][k][truth["labels"].index(x)] for x in labels] for k in np.argsort(ax, kind="stable")])
+                    if np.all(np.abs(got - by_value) <= 1e-6 * (1.0 + np.abs(by_value))):
+                        key += ":non-ascending-global-axis"
+                ck.violation(key,
                              f"{label!r}: estimated clp {l!r} at global index {i} is {got[i, j]!r}, generating clp / dataset scale is {trow[l]!r} "
                              f"(dataset scale {cap['scale']})", {**case, "index": i, "clp_label": l, "got": float(got[i, j]), "want": trow[l], "cond": cond})
                 return
@@ -925,7 +961,8 @@ def run_zoo(ck, case, batch, lean=True, variant_rng=None):
                     fit_oracle_full_clp(ck, light, dl, r, caps[dl], "spectral", "time")
                 else:
                     fit_oracle_clp(ck, light, dl, r, d["truth"], caps[dl], "spectral", "time", None, linked, nnls="nnls" in case["tags"],
-                                   group_cond=max(own_cond(caps[x], len(case["data"][x]["spectral"]), None) for x in caps if not caps[x]["gmcs"]))
+                                   group_cond=max(own_cond(caps[x], len(case["data"][x]["spectral"]), None) for x in caps if not caps[x]["gmcs"]),
+                                   global_axis=d["spectral"])
                     real_clps[dl] = ([str(x) for x in r.clp.coords["clp_label"].values],
                                      np.asarray(r.clp.transpose("spectral", "clp_label").values, dtype=float))
     if lean:
@@ -1094,12 +1131,94 @@ def zoo_with_noise(rng, case):
 # ------------------------------------------------------------------------------------------------------------
 # recovery from perturbed starts (empirical clause)
 # ------------------------------------------------------------------------------------------------------------
-def run_recovery(ck, case, frac):
+RECOVERY_RULE = (
+    "a configuration (model, generating parameters, axes, perturbed start) is tested for recovery iff it is IDENTIFIABLE IN THE "
+    "BOX, decided on the real code before optimize() is called: (R1) every dataset's clp matrix at the truth has condition "
+    "number < 1e6 at every global index (else `skipped:linear-cond`); (R2) every varied parameter moves the objective: the "
+    "column f(p_j * (1 + 1e-6)) / 1e-6 of the relative Jacobian at the truth has norm >= 1e-6 * |data|_2 (else "
+    "`skipped:no-effect`); (R3) the relative Jacobian has full column rank with sigma_min >= 1e-4 * sigma_max (else "
+    "`skipped:jacobian-rank`); (R4) the start lies in the basin of the truth: the cost sampled at 21 equidistant points of the "
+    "segment start -> truth is strictly decreasing (else `skipped:not-in-basin`); (R5) if optimize() ends at a different "
+    "parameter vector whose cost is zero to rounding (<= (1e-9 |data|_inf)^2 per residual), two parameter vectors generate the "
+    "same data: not identifiable (`other-exact-solution`). Solver limits recorded under C01 (`skipped:solver-limit`). CORE "
+    "family (sequential / parallel decay, no or Gaussian IRF, 1-2 datasets, VP or NNLS, linked or not): every configuration "
+    "that passes R1-R5 must return to the generating parameters (1e-5 relative, <= 60 evaluations); a miss or an exception is "
+    "a violation. WIDE family (any other composition of the zoo: general decay, multi/dispersed/shifted IRF, coherent artifact, "
+    "damped oscillation, PFID, baseline, clp guide, scales, all varying parameters perturbed): R1-R5 are evaluated and the "
+    "outcome is recorded (`recovered` / `observed-miss` / `observed-raise`), but a miss is not a violation: R1-R4 are local "
+    "conditions and do not imply that a local optimiser converges from 20 % in a non-convex problem with many coupled "
+    "parameters. Every configuration is listed with its family (megacomplex / IRF tags), diagnostics and status in "
+    "evidence.extra.recovery."
+)
+
+
+def _family(case):
+    keep = [t for t in case["tags"] if t.startswith(("decay", "general:", "irf:", "damped", "coherent", "pfid", "baseline", "clp-guide", "linked", "nnls", "degenerate"))]
+    return "+".join(sorted(keep)) or "none"
+
+
+def _penalty(opt, params, labels):
+    _, x, _, _ = params.get_label_value_and_bounds_arrays(exclude_non_vary=True)
+    with np.errstate(all="ignore"):
+        return np.asarray(opt.objective_function(np.asarray(x, dtype=float)), dtype=float).ravel()
+
+
+def identifiability(case, model, truth, start, data, frac):
+    """-> (status | None, diagnostics).  Evaluated on the real code only (Optimizer.objective_function); see RECOVERY_RULE."""
+    from glotaran.optimization.optimizer import Optimizer
+    from glotaran.project import Scheme
+
+    diag = {}
+    worst = 1.0
+    for dl, d in case["data"].items():
+        cap = capture_megacomplexes(model, truth, dl, d["time"], d["spectral"])
+        worst = max(worst, own_cond(cap, len(d["spectral"]), None))
+    diag["linear_cond"] = worst
+    if not worst < 1e6:
+        return "skipped:linear-cond", diag
+    scheme = Scheme(model=model, parameters=truth.copy(), data=data, maximum_number_function_evaluations=1)
+    opt = Optimizer(scheme, verbose=False, raise_exception=True)
+    labels, _, _, _ = truth.get_label_value_and_bounds_arrays(exclude_non_vary=True)
+    opt._free_parameter_labels = labels
+    dnorm = float(np.sqrt(sum(float(np.sum(np.asarray(ds.data.values) ** 2)) for ds in data.values())))
+    f0 = _penalty(opt, truth, labels)
+    h = 1e-6
+    cols = []
+    for l in frac:
+        p = truth.copy()
+        p.get(l).value = truth.get(l).value * (1.0 + h)
+        cols.append((_penalty(opt, p, labels) - f0) / h)
+    J = np.stack(cols, axis=1)
+    if not np.all(np.isfinite(J)):
+        return "skipped:jacobian-rank", diag
+    norms = np.linalg.norm(J, axis=0)
+    diag["weakest_column"] = float(norms.min() / max(dnorm, 1e-300))
+    if dnorm == 0.0 or norms.min() < 1e-6 * dnorm:
+        diag["no_effect"] = [l for l, n_ in zip(frac, norms) if n_ < 1e-6 * dnorm]
+        return "skipped:no-effect", diag
+    sv = np.linalg.svd(J, compute_uv=False)
+    diag["jacobian_sigma_ratio"] = float(sv[-1] / sv[0])
+    if J.shape[0] < J.shape[1] or sv[-1] < 1e-4 * sv[0]:
+        return "skipped:jacobian-rank", diag
+    costs = []
+    for t in np.linspace(0.0, 1.0, 21):
+        p = truth.copy()
+        for l in frac:
+            p.get(l).value = start.get(l).value + t * (truth.get(l).value - start.get(l).value)
+        r = _penalty(opt, p, labels)
+        costs.append(float(np.dot(r, r)) if np.all(np.isfinite(r)) else float("inf"))
+    diag["cost_profile"] = [costs[0], costs[10], costs[-1]]
+    if not all(a > b for a, b in zip(costs[:-1], costs[1:])):
+        return "skipped:not-in-basin", diag
+    return None, diag
+
+
+def run_recovery(ck, case, frac, wide=False):
     from glotaran.optimization.optimize import optimize
     from glotaran.project import Scheme
     from glotaran.simulation import simulate
 
-    light = {"kind": "recovery", "zoo": case, "perturbation": frac}
+    light = {"kind": "recovery", "zoo": case, "perturbation": frac, "wide": wide}
     model, truth = zoo.build(case)
     data = {dl: simulate(model, dl, truth, zoo.coords_of(case, dl), clp=clp_dataarray(d.get("clp"), "spectral", d["spectral"], "plain"))
             for dl, d in case["data"].items()}
@@ -1107,29 +1226,77 @@ def run_recovery(ck, case, frac):
     for l, f in frac.items():
         p = start.get(l)
         p.value = p.value * (1.0 + f)
-    scheme = Scheme(model=model, parameters=start, data=data, maximum_number_function_evaluations=60, ftol=1e-14, gtol=1e-14, xtol=1e-14)
-    ck.oracle_evals += 1
+    fam = ("wide:" if wide else "core:") + _family(case)
     ck.case(("recovery", json.dumps(light, sort_keys=True, default=str)), True)
+    record = {"family": fam, "max_perturbation": max([abs(f) for f in frac.values()] + [0.0]), "parameters": len(frac)}
+    ck.extra.setdefault("recovery", {"rule": RECOVERY_RULE, "configurations": []})
+
+    def done(status, **kw):
+        record.update(status=status, **kw)
+        if len(ck.extra["recovery"]["configurations"]) < 400:
+            ck.extra["recovery"]["configurations"].append(record)
+        ck.count("recovery:" + status)
+        ck.count(f"recovery-family:{fam}:{status}")
+
+    ck.oracle_evals += 1
+    if not frac:
+        return done("skipped:no-free-parameter")
+    try:
+        status, diag = identifiability(case, model, truth, start, data, frac)
+    except Exception as e:  # noqa: BLE001
+        if solver_limit(e):
+            return done("skipped:solver-limit", error=solver_limit(e))
+        if wide:
+            return done("observed-raise", error=f"{type(e).__name__}: {str(e)[:120]}")
+        ck.violation("recovery-raises:" + type(e).__name__, f"evaluating the objective near the generating parameters raised {type(e).__name__}: {str(e)[:160]}", light)
+        return done("raised")
+    record.update({k: v for k, v in diag.items()})
+    if status is not None:
+        return done(status)
+    scheme = Scheme(model=model, parameters=start, data=data, maximum_number_function_evaluations=60, ftol=1e-14, gtol=1e-14, xtol=1e-14)
     try:
         res = optimize(scheme, verbose=False, raise_exception=True)
     except Exception as e:  # noqa: BLE001
         if solver_limit(e):
             ck.count("real-error:" + solver_limit(e))
-            return
+            return done("skipped:solver-limit", error=solver_limit(e))
+        if wide:
+            return done("observed-raise", error=f"{type(e).__name__}: {str(e)[:120]}")
         ck.violation("recovery-raises:" + type(e).__name__, f"optimize from a perturbed start raised {type(e).__name__}: {str(e)[:160]}", light)
-        return
+        return done("raised")
     worst = 0.0
     for l in frac:
         t, v = truth.get(l).value, res.optimized_parameters.get(l).value
         worst = max(worst, abs(v - t) / abs(t))
-    ck.count("recovery:" + ("ok" if worst <= 1e-5 else "missed"))
-    if worst > 1e-5:
-        ck.violation("not-recovered", f"identifiable model started {max(abs(f) for f in frac.values()) * 100:.0f} % off did not return to the generating parameters "
-                     f"(worst relative error {worst:.2e}, nfev {res.number_of_function_evaluations}, {res.termination_reason!r})", {**light, "worst": worst})
+    record["worst_relative_error"] = float(worst)
+    record["nfev"] = int(res.number_of_function_evaluations)
+    if worst <= 1e-5:
+        return done("recovered")
+    dmax = max(float(np.max(np.abs(ds.data.values))) for ds in data.values())
+    n_res = sum(int(ds.data.size) for ds in data.values())
+    if 2.0 * float(res.cost) <= (1e-9 * dmax) ** 2 * n_res:
+        return done("other-exact-solution")
+    if wide:
+        return done("observed-miss", termination=str(res.termination_reason))
+    ck.violation("not-recovered", f"identifiable model ({fam}) started {max(abs(f) for f in frac.values()) * 100:.0f} % off did not return to the generating parameters "
+                 f"(worst relative error {worst:.2e}, nfev {res.number_of_function_evaluations}, {res.termination_reason!r})", {**light, "worst": worst})
+    return done("missed")
 
 
-def recovery_case(rng):
-    case = zoo.rand_case(rng, recover=True, small=False)
+def recovery_case(rng, wide=False):
+    case = zoo.rand_case(rng, recover=not wide, wide=wide, small=False)
+    if not wide and rng.random() < 0.12:
+        # a deliberately non-identifiable member of the core family: the generating clps of the last compartment vanish at
+        # every global point of every dataset, so its rate does not move the data (the rule must say so: R2)
+        n = max(int(l[1:]) for d in case["data"].values() for l in d["labels"] if l[0] == "s" and l[1:].isdigit())
+        if n >= 2:
+            for d in case["data"].values():
+                for tab in (d["clp"], d["truth"]):
+                    if f"s{n}" in tab["labels"]:
+                        j = tab["labels"].index(f"s{n}")
+                        for r in tab["rows"]:
+                            r[j] = 0.0
+            case["tags"] = sorted(set(case["tags"]) | {"degenerate:zero-clp"})
     frac = {l: rng.choice([-1, 1]) * rng.uniform(0.03, 0.2) for l in case["recover"]}
     return case, frac
 
@@ -1182,13 +1349,24 @@ def time_limit(seconds, what):
 
 def run_case(ck, case, batch, lean=True):
     kind = case.get("kind")
+    t0 = time.time()
+    try:
+        _run_case(ck, case, batch, lean, kind)
+    finally:
+        dt = round(time.time() - t0, 1)
+        slow = ck.extra.setdefault("slowest_case_s", {})
+        if dt > slow.get(kind, [0.0])[0]:
+            slow[kind] = [dt, case.get("tags") or (case.get("zoo") or {}).get("tags") or sorted(c02.classify(case["spec"])) if "spec" in case or "tags" in case or "zoo" in case else None]
+
+
+def _run_case(ck, case, batch, lean, kind):
     with time_limit(150 if ck.quick else 600, f"case kind {kind}"):
         if kind in ("exact", "malformed", "noise", "permutation"):
             run_exact(ck, case, batch, lean=lean)
         elif kind == "zoo":
             run_zoo(ck, case, batch, lean=lean)
         elif kind == "recovery":
-            run_recovery(ck, case["zoo"], case["perturbation"])
+            run_recovery(ck, case["zoo"], case["perturbation"], wide=bool(case.get("wide")))
         else:
             raise core.HarnessError(f"unknown case kind {kind!r}")
 
@@ -1265,14 +1443,16 @@ def _run(ck):
             flush(ck, batch)
     flush(ck, batch)
     lap("builtin")
-    for i in range(ck.n(6, 200)):
-        case, frac = recovery_case(rng)
-        run_case(ck, {"kind": "recovery", "zoo": case, "perturbation": frac}, batch)
-        ck.count("stream:recovery")
+    for i in range(ck.n(6, 240)):
+        # three of four: the core kinetic family (sequential / parallel decay, no or gaussian IRF); one of four: any configuration
+        wide = i % 4 == 3
+        case, frac = recovery_case(rng, wide=wide)
+        run_case(ck, {"kind": "recovery", "zoo": case, "perturbation": frac, "wide": wide}, batch)
+        ck.count("stream:recovery" + (":wide" if wide else ":core"))
     lap("recovery")
     ck.extra["tolerances"] = {"objective_at_truth": "1e-9 * |data|_inf (NNLS with cond >= 1e4: 1e-6 and no parameter check)", "clp": "(1e-10 * cond + 1e-12) * max(1, |clp|)", "parameters": "1e-8 relative",
                               "simulated_data_builtin": "64 eps * sum_l |matrix[:, l] * clp[l]|", "simulated_data_exact": "equality",
-                              "recovery": "1e-5 relative after <= 60 evaluations (empirical)"}
+                              "recovery": "1e-5 relative after <= 60 evaluations (empirical), for the configurations the stated rule (extra.recovery.rule) calls identifiable"}
 
 
 def search(ck):
@@ -1303,7 +1483,7 @@ def replay(ck, case):
         if c.get("kind") == "zoo" and "zoo" in c:
             c = c["zoo"]                       # violation payloads wrap the zoo case
         elif c.get("kind") != "zoo":
-            c = {k: v for k, v in c.items() if k in ("kind", "spec", "sim", "zoo", "perturbation")}
+            c = {k: v for k, v in c.items() if k in ("kind", "spec", "sim", "zoo", "perturbation", "wide")}
         run_case(ck, c, batch)
     flush(ck, batch)
     for d in ck.disagreements:
